@@ -331,6 +331,9 @@ fn typed_case<B: Backend>(c: &TypedCase, acc: &mut Acc) -> R {
     r?;
     acc.eval();
     acc.nt(hash_of(&(c.public, &c.key, c.shape % 4, &c.text, c.n)));
+    if c.text.len() > 8000 {
+        acc.class("typed:text>8000-bytes");
+    }
     acc.class(["typed:Json+unit-footer", "typed:Json+Json-footer", "typed:RegisteredClaims+Json<struct>-footer", "typed:Json+bytes-footer"][(c.shape % 4) as usize]);
     Ok(())
 }
@@ -346,7 +349,16 @@ fn typed_subs_for<B: Backend>(out: &mut Vec<SubCheck>) {
         4,
         cases,
         |_t| {
-            (any::<bool>(), gen_::key_seed(), 0u8..4, prop_oneof![Just(String::new()), "\\PC{0,30}", any::<String>()], any::<i64>(), gen_::assertion(B::VER.has_assertion()))
+            (any::<bool>(), gen_::key_seed(), 0u8..4, prop_oneof![
+                4 => Just(String::new()).boxed(),
+                8 => "\\PC{0,30}".boxed(),
+                4 => any::<String>().boxed(),
+                // long texts: typed footers / payloads of several KiB up to 100 KiB (sizes around 2^k)
+                2 => (prop::sample::select(vec![1000usize, 4000, 8100, 8170, 8180, 8192, 8200, 16384, 20000, 65536, 100_000]), 0usize..40, any::<u8>()).prop_map(|(n, d, ch)| {
+                    let c = [b'a', b'Z', b'0', b' ', b'"', b'\\'][(ch % 6) as usize] as char;
+                    std::iter::repeat(c).take(n + d).collect::<String>()
+                }).boxed(),
+            ], any::<i64>(), gen_::assertion(B::VER.has_assertion()))
                 .prop_map(|(public, key, shape, text, n, assertion)| TypedCase { public, key, shape, text, n, assertion })
         },
         typed_case::<B>,
@@ -360,7 +372,7 @@ pub fn def() -> PropertyDef {
     PropertyDef {
         id: "C01",
         level: "exploration",
-        rule: "proptest cases (back end x purpose x key source x payload encoding suffix {none, non-empty} x payload spec x footer x assertion x seal path {library RNG, scripted draw, caller nonce} x entry point {seal/unseal, encrypt|sign[_with_aad], decrypt|verify[_with_aad]}); oracle = round-trip identity + spec payload length + re-serialisation; a second family of cases uses the typed payload / footer types of the public API (Json<Value>, RegisteredClaims, (), Json<Value> and Json<struct> footers); non-trivial iff payload longer than one cipher block, or non-empty footer or assertion, or a parsed (not random()) key; distinct by descriptor hash",
+        rule: "proptest cases (back end x purpose x key source x payload encoding suffix {none, non-empty} x payload spec x footer x assertion x seal path {library RNG, scripted draw, caller nonce} x entry point {seal/unseal, encrypt|sign[_with_aad], decrypt|verify[_with_aad]}); oracle = round-trip identity + spec payload length + re-serialisation; a second family of cases uses the typed payload / footer types of the public API (Json<Value>, RegisteredClaims, (), Json<Value> and Json<struct> footers; texts up to 100 KiB so typed footers and payloads cross 8 KiB / 64 KiB); non-trivial iff payload longer than one cipher block, or non-empty footer or assertion, or a parsed (not random()) key; distinct by descriptor hash",
         assumptions: vec![
             "aws-lc and libsodium draw from their own OS-seeded generators (not scripted); rare signature shapes are reached by volume",
             "payload type is a raw-bytes Payload with SUFFIX \"\" (same header as JSON)",
